@@ -73,6 +73,15 @@ CHECKS = {
             "index makes searches raise, up to 30 rounds of 40 one-posting keywords force the 1-in-256 silent case.",
             "The disjunction is evaluated per search; any exception type is a loud refusal; 20 s alarm per case (timeout = inconclusive).",
             "DESIGN.md §3 C08"),
+    "C10": ("exploration", "trace conformance against a 3-state reference model over exhaustively enumerated message sequences (raw websocket client vs the real handler), with the cleanup delay as a schedulable gate",
+            "All sequences over 8 message kinds (config c1/c2, upload e1/e2, search, reconnect, foreign sid, unknown type) "
+            "up to length 4 (quick) / 6 (thorough), each on a fresh sid, plus seeded random sequences to length 12, are "
+            "sent by a raw websocket client to the real connection handler served in-process. The observable trace "
+            "(init-echo state of every connection, ok/refused, search result identifying the index) must equal the "
+            "model's; each sequence is run with reconnects after the predecessor's cleanup and again with reconnects "
+            "INSIDE the cleanup delay (held by a gate); at the end the stored files must be the accepted ones.",
+            "Cleanup delay virtualised by a module-local asyncio proxy (real-time sample in thorough); refusal = {'ok': False} reply or server-side closure.",
+            "DESIGN.md §3 C10"),
     "C14": ("exploration", "post-condition monitors + independent recomputation of every ciphertext (PKCS7 + AES-CBC with the observed IV)",
             "The real AES-CBC wrapper (obtained by name, as the schemes do) is driven with all message lengths 0..80 "
             "for each key length and several keys, random lengths to 4096 biased to block boundaries, related keys, "
